@@ -220,6 +220,7 @@ def check_chain(types, gset, npts, res):
                 if not same_point(row, Y.from_basic(pbq), Y.typ, 1e-8):
                     msgs.append("chain %s: getcoordinates(%s id list) row for grid %d is %s, that grid is at %s in system %d" % (types, order_name, gq, row.tolist(), Y.from_basic(pbq).tolist(), Y.cid))
                     break
+    uset_snapshot = uset.values.copy()
     for gidx, X, pb, ploc in truth:
         got = uset.loc[(gidx, 1), "x":"z"].values.astype(float)
         if not np.allclose(got, pb, rtol=0, atol=1e-9 * max(1.0, np.abs(pb).max())):
@@ -279,6 +280,9 @@ def check_chain(types, gset, npts, res):
         co, mxdev, mxerr = n2p.rbcoords(rbb, verbose=0)
         if not np.allclose(co, pbs - refxyz, atol=1e-9 * sc):
             msgs.append("rbcoords does not recover the grid locations relative to the reference point")
+        if not np.array_equal(uset.values, uset_snapshot):
+            msgs.append("chain %s: the USET table was modified by getcoordinates / rbgeom_uset queries" % (types,))
+            uset_snapshot = uset.values.copy()
         # documented: nodes may be in any mixture of (local) coordinate systems -> same locations, no deviation
         if rb.shape == want.shape:
             co2, mxdev2, mxerr2 = n2p.rbcoords(want, verbose=0)
